@@ -208,6 +208,7 @@ func init() {
 			"resource_id is unique; acquire = insert … ON CONFLICT(resource_id) DO UPDATE SET process_id, ttl, expires_at (never execution_id) WHERE execution_id = excluded.execution_id; release deletes only resource_id = · AND execution_id = ·; heartbeat is an UPDATE of expires_at keyed by process_id; sweep deletes only expires_at <= · (R1/R2, both backends)",
 			"ExpiresAt = c.Time() + ttl; heartbeat and sweep operands are c.Time() (R9/R8)",
 			"0 rows ⇒ the answer does not claim the lock; the lock shown is the one written (R6)",
+			"the execution / process id the kernel compares is the one this request carried: every request body is decoded into storage fresh for the message (decode-fresh)",
 		},
 		[]string{"interleavings", "clock positions beyond comparator strictness"}).
 		rule("R7-decision-tables", ruleTables(tblAcquire, tblRelease)).
@@ -218,7 +219,9 @@ func init() {
 		rule("R6-object-provenance", ruleObjProvenance("Lock")).
 		rule("R6-cas", ruleCAS("AcquireLock", "ReleaseLock", "HeartbeatLocks")).
 		rule("R14-clock-fresh", ruleClockFresh).
-		rule("R6-response-shapes", ruleRespProvenance("AcquireLockResponse", "ReleaseLockResponse", "HeartbeatLocksResponse"))
+		rule("R6-response-shapes", ruleRespProvenance("AcquireLockResponse", "ReleaseLockResponse", "HeartbeatLocksResponse")).
+		// seed C09-7: "a release by any other execution has no effect" presupposes that the execution id the kernel compares is the one this request carried — every request body is decoded into storage fresh for the message
+		rule("R16-decode-fresh", ruleDecodeFresh)
 
 	regProp("C10",
 		[]string{
